@@ -384,6 +384,12 @@ def step (s : DState) (line : String) : DState × String :=
     | some n => plain s (match s.ms.dict.cmdByName n with | some x => toString x | none => "none")
     | none => plain s "bad-op"
   | ["dsize"] => plain s (toString s.ms.dict.avps.length)
+  | ["tables"] =>
+    let known (f : Nat → Bool) (cands : List Nat) : List Nat := (cands.filter f).mergeSort (· ≤ ·) |>.eraseDups
+    let cmdCands := [0, 257, 280, 282, 258, 275, 274, 272, 8388635, 8388636, 271, 265]
+    let appCands := [0, 3, 4, 16777238, 16777236, 16777302]
+    plain s ("cmds=" ++ String.intercalate "," ((known cmdKnown cmdCands).map toString) ++ " apps=" ++
+      String.intercalate "," ((known appKnown appCands).map toString))
   | ["clear"] => plain { s with ms := { s.ms with stack := [] } } "ok"
   | ["enc"] =>
     let m := s.ms.msg
